@@ -585,19 +585,24 @@ void BSTriShape::Sync(NiStreamReversible& stream) {
 			particleNorms.resize(numVertices);
 			particleTris.resize(numTriangles);
 
-			for (uint16_t i = 0; i < numVertices; i++) {
+			// The arrays in the file are sized by the counts stored in this block, which are
+			// written as zero for skinned shapes (their data is in the skin partition instead)
+			const uint16_t particleVertCount = syncVertexData ? numVertices : 0;
+			const uint32_t particleTriCount = syncVertexData ? numTriangles : 0;
+
+			for (uint16_t i = 0; i < particleVertCount; i++) {
 				stream.SyncHalf(particleVerts[i].x);
 				stream.SyncHalf(particleVerts[i].y);
 				stream.SyncHalf(particleVerts[i].z);
 			}
 
-			for (uint16_t i = 0; i < numVertices; i++) {
+			for (uint16_t i = 0; i < particleVertCount; i++) {
 				stream.SyncHalf(particleNorms[i].x);
 				stream.SyncHalf(particleNorms[i].y);
 				stream.SyncHalf(particleNorms[i].z);
 			}
 
-			for (uint32_t i = 0; i < numTriangles; i++)
+			for (uint32_t i = 0; i < particleTriCount; i++)
 				stream.Sync(particleTris[i]);
 		}
 	}
